@@ -2,6 +2,7 @@
 its neighbours; mirrored supplies give mirrored voltages and identical currents/powers."""
 
 from .. import gen as G, harness as H, model as M, spec as S
+from . import _rows
 
 PROP = "C01"
 LEVEL = "exploration"
@@ -37,7 +38,11 @@ def gen_opts(rng, tier):
 def gen(rng, i, tier):
     spec = gen_system(rng, tier)
     tight = rng.random() < 0.4
-    return {"spec": spec, "tol": 1e-9 if tight else 1e-6, "ta": 25.0}
+    if rng.random() < 0.15:
+        spec = G.scale_currents(spec, 10 ** rng.uniform(-6, 5))  # uA-class ... kA-class systems
+    case = {"spec": spec, "tol": 1e-9 if tight else 1e-6, "ta": 25.0}
+    case.update(_rows.random_call_context(rng))
+    return case
 
 
 def gen_system(rng, tier):
